@@ -1441,9 +1441,11 @@ Lemma closed_fails : forall s h b k x, inv_stop s -> nth_error (subs s) h = Some
   step s (IsClosed h k) = (s, [OClosed h k true]) /\
   (~ In k (map fst (s_inflight b)) -> step s (SendCheck h k x) = (s, [OSendResult h k x false])).
 Proof.
-  intros s h b k x St Hb Hc Hk. apply memN_In in Hk. unfold step, step_gen. cbn [step_core]. rewrite Hb, Hk, Hc. cbn [andb].
-  rewrite (settle_id s St). split; [reflexivity|]. intro Hn.
-  destruct (memN k (map fst (s_inflight b))) eqn:E; [apply memN_In in E; contradiction|]. cbn [negb]. reflexivity.
+  intros s h b k x St Hb Hc Hk. apply memN_In in Hk. split.
+  - unfold step, step_gen. cbn [step_core]. rewrite Hb, Hk, Hc, (settle_id s St). reflexivity.
+  - intro Hn. assert (E : memN k (map fst (s_inflight b)) = false).
+    { destruct (memN k (map fst (s_inflight b))) eqn:E; [apply memN_In in E; contradiction | reflexivity]. }
+    unfold step, step_gen. cbn [step_core]. rewrite Hb, Hk, E. cbn [andb negb]. rewrite Hc, (settle_id s St). reflexivity.
 Qed.
 
 Lemma send_after_close_fails : forall caps base meth tr1 a tr2 h b,
@@ -1476,3 +1478,155 @@ Qed.
 
 Lemma stop_closes_idle : forall caps base meth tr, inv_stop (fst (reach caps base meth tr)).
 Proof. intros. apply reach_inv. Qed.
+
+(* ------------------------------------------------------------------ C06: lemmas behind the theorems *)
+(* subscriptions of connection c that exist: pending, being accepted, or active with a sink still held *)
+Definition live_on (c : nat) (b : sub) : bool := Nat.eqb (s_conn b) c && live b.
+Definition count_live (s : st) (c : nat) : nat := length (filter (live_on c) (subs s)).
+
+(* (c, t) names a subscription that is currently active on connection c *)
+Definition active_here (s : st) (c : nat) (t : N) : Prop :=
+  exists h b, nth_error (subs s) h = Some b /\ s_conn b = c /\ s_id b = t /\ s_state b = SActive /\
+              s_unsubscribed b = false /\ s_sinks b <> [].
+
+Lemma filter_ext_in_len : forall A (p q : A -> bool) l, (forall a, In a l -> p a = q a) -> length (filter p l) = length (filter q l).
+Proof.
+  intros A p q l H. induction l as [|a l IH]; cbn; [reflexivity|]. rewrite (H a (or_introl eq_refl)).
+  destruct (q a); cbn; rewrite IH; auto; intros; apply H; right; assumption.
+Qed.
+
+Lemma count_live_on : forall s c, Inv s -> count_live s c = count_on s c.
+Proof.
+  intros s c I. unfold count_live, count_on. apply filter_ext_in_len. intros b Hin.
+  apply In_nth_error in Hin. destruct Hin as [h Hb]. destruct (inv_sub s I _ _ Hb) as [_ [_ [_ [E _]]]].
+  unfold live_on, holds_on. rewrite E. reflexivity.
+Qed.
+
+Lemma table_active : forall s c t, Inv s -> (In (c, t) (table s) <-> active_here s c t).
+Proof.
+  intros s c t I. rewrite (inv_table s I). split.
+  - intros [h [b [Hb K]]]. apply akey_key in K. destruct K as [K [Ha Hu]]. unfold key_of in K. inversion K.
+    exists h, b. repeat split; auto. intro Hs. destruct (inv_sub s I _ _ Hb) as [_ [_ [_ [_ [_ [_ [A7 _]]]]]]].
+    rewrite (A7 Ha Hs) in Hu. discriminate.
+  - intros [h [b [Hb [E1 [E2 [Ha [Hu _]]]]]]]. exists h, b. split; [assumption|]. unfold akey, key_of. rewrite Ha, Hu, E1, E2. reflexivity.
+Qed.
+
+Lemma unsubscribe_truth_table : forall caps base meth tr c cn req t,
+  let s := fst (reach caps base meth tr) in
+  nth_error (conns s) c = Some cn -> c_open cn = true -> stopped s = false ->
+  exists r, snd (step s (UnsubscribeCall c req t)) = [OUnsubAnswer c req t r] /\
+            (r = true <-> active_here s c t) /\
+            (exists cn', nth_error (conns (fst (step s (UnsubscribeCall c req t)))) c = Some cn' /\ sent cn' = sent cn ++ [FUnsub req r]).
+Proof.
+  intros caps base meth tr c cn req t s Hc Ho Hst. destruct (reach_inv caps base meth tr) as [I _]. fold s in I.
+  exists (mem_key (c, t) (table s)).
+  assert (E : step s (UnsubscribeCall c req t) = (fst (step_core false s (UnsubscribeCall c req t)), [OUnsubAnswer c req t (mem_key (c, t) (table s))])).
+  { unfold step, step_gen. cbn [step_core]. rewrite Hc, Ho, Hst. cbn [andb negb].
+    unfold settle. cbn [stopped upd_conn set_conns set_subs set_table]. rewrite Hst. reflexivity. }
+  rewrite E. cbn [fst snd]. split; [reflexivity|]. split.
+  - rewrite <- (table_active s c t I). split; intro H; [apply mem_key_In | apply mem_key_In in H]; assumption.
+  - cbn [step_core]. rewrite Hc, Ho, Hst. cbn [andb negb fst]. exists (c_enq (FUnsub req (mem_key (c, t) (table s))) cn).
+    split; [unfold upd_conn; cbn; apply nth_error_upd_same; assumption|]. unfold sent, c_enq. cbn. rewrite app_assoc. reflexivity.
+Qed.
+
+Lemma cap_respected : forall caps base meth tr c cn,
+  let s := fst (reach caps base meth tr) in
+  nth_error (conns s) c = Some cn ->
+  count_live s c + c_permits cn = c_cap cn /\ count_live s c <= c_cap cn.
+Proof.
+  intros caps base meth tr c cn s Hc. destruct (reach_inv caps base meth tr) as [I _]. fold s in I.
+  pose proof (inv_count s I _ _ Hc). rewrite (count_live_on s c I). lia.
+Qed.
+
+Lemma subscribe_decision : forall caps base meth tr c cn req,
+  let s := fst (reach caps base meth tr) in
+  nth_error (conns s) c = Some cn -> c_open cn = true -> stopped s = false ->
+  (count_live s c = c_cap cn ->
+     snd (step s (SubscribeCall c req)) = [ORefused c req] /\ subs (fst (step s (SubscribeCall c req))) = subs s /\
+     exists cn', nth_error (conns (fst (step s (SubscribeCall c req)))) c = Some cn' /\ sent cn' = sent cn ++ [FErr req ETooMany]) /\
+  (count_live s c < c_cap cn -> snd (step s (SubscribeCall c req)) = [OHandler (length (subs s)) c req]).
+Proof.
+  intros caps base meth tr c cn req s Hc Ho Hst. destruct (cap_respected caps base meth tr c cn Hc) as [E _]. fold s in E.
+  unfold step, step_gen. cbn [step_core]. rewrite Hc, Ho, Hst. cbn [andb negb]. split; intro H.
+  - assert (Hp : c_permits cn = 0) by lia. rewrite Hp. unfold settle, push. cbn [stopped upd_conn set_conns]. rewrite Hst. cbn [fst snd].
+    split; [reflexivity|]. split; [reflexivity|]. exists (c_push (FErr req ETooMany) cn).
+    split; [apply nth_error_upd_same; assumption|]. unfold c_push. rewrite Ho. unfold sent, c_enq. cbn. rewrite app_assoc. reflexivity.
+  - destruct (c_permits cn) as [|p] eqn:Hp; [lia|]. unfold settle. cbn [stopped upd_conn set_conns set_subs]. rewrite Hst. reflexivity.
+Qed.
+
+(* a connection with p free permits starts p new subscriptions *)
+Fixpoint handler_obs (h c : nat) (reqs : list N) : list obs :=
+  match reqs with [] => [] | r :: rs => OHandler h c r :: handler_obs (S h) c rs end.
+
+Lemma restart : forall reqs s c cn, nth_error (conns s) c = Some cn -> c_open cn = true -> stopped s = false ->
+  length reqs <= c_permits cn ->
+  snd (run s (map (SubscribeCall c) reqs)) = handler_obs (length (subs s)) c reqs.
+Proof.
+  intros reqs. unfold run, run_gen.
+  assert (G : forall s o c cn, nth_error (conns s) c = Some cn -> c_open cn = true -> stopped s = false -> length reqs <= c_permits cn ->
+            snd (fold_left (run_step step) (map (SubscribeCall c) reqs) (s, o)) = o ++ handler_obs (length (subs s)) c reqs).
+  { induction reqs as [|req reqs IH]; intros s o c cn Hc Ho Hst Hl; cbn [map fold_left handler_obs].
+    - cbn. rewrite app_nil_r. reflexivity.
+    - cbn [length] in Hl. destruct (c_permits cn) as [|p] eqn:Hp; [lia|].
+      assert (E : run_step step (s, o) (SubscribeCall c req) =
+                  (upd_conn (set_subs s (subs s ++ [mkSub c (id_base s + N.of_nat (length (subs s)))%N req (notif_meth s) SPending [] [] true false false None])) c (c_set_permits p),
+                   o ++ [OHandler (length (subs s)) c req])).
+      { unfold run_step, step, step_gen. cbn [step_core fst snd]. rewrite Hc, Ho, Hst, Hp. cbn [andb negb].
+        unfold settle. cbn [stopped upd_conn set_conns set_subs]. rewrite Hst. reflexivity. }
+      rewrite E. erewrite IH with (cn := c_set_permits p cn).
+      + cbn [subs upd_conn set_conns set_subs]. rewrite app_length. cbn [length]. rewrite <- app_assoc. cbn [app].
+        rewrite Nat.add_1_r. reflexivity.
+      + cbn. apply nth_error_upd_same. assumption.
+      + assumption.
+      + assumption.
+      + cbn. lia. }
+  intros s c cn Hc Ho Hst Hl. rewrite (G s [] c cn Hc Ho Hst Hl). reflexivity.
+Qed.
+
+Lemma slot_returns : forall caps base meth tr c cn reqs,
+  let s := fst (reach caps base meth tr) in
+  nth_error (conns s) c = Some cn ->
+  (c_permits cn = c_cap cn - count_live s c) /\
+  (c_open cn = true -> stopped s = false -> length reqs = c_cap cn - count_live s c ->
+     snd (run s (map (SubscribeCall c) reqs)) = handler_obs (length (subs s)) c reqs).
+Proof.
+  intros caps base meth tr c cn reqs s Hc. destruct (cap_respected caps base meth tr c cn Hc) as [E _]. fold s in E.
+  split; [lia|]. intros Ho Hst Hl. eapply restart; eauto. lia.
+Qed.
+
+Lemma stays_active : forall caps base meth tr h b cn,
+  let s := fst (reach caps base meth tr) in
+  let o := snd (reach caps base meth tr) in
+  nth_error (subs s) h = Some b -> s_state b = SActive -> s_sinks b <> [] ->
+  nth_error (conns s) (s_conn b) = Some cn -> c_open cn = true ->
+  (forall req, ~ In (OUnsubAnswer (s_conn b) req (s_id b) true) o) ->
+  In (s_conn b, s_id b) (table s) /\
+  forall k, In k (s_sinks b) -> step s (IsClosed h k) = (s, [OClosed h k false]).
+Proof.
+  intros caps base meth tr h b cn s o Hb Ha Hs Hc Ho Hn. destruct (reach_inv caps base meth tr) as [I [IO St]]. fold s in I, IO, St. fold o in IO.
+  assert (Hu : s_unsubscribed b = false).
+  { destruct (s_unsubscribed b) eqn:E; [|reflexivity]. destruct (io_unsub s o IO _ _ Hb Ha E Hs) as [req Hr]. exfalso. exact (Hn req Hr). }
+  split.
+  - apply (inv_table s I). exists h, b. split; [assumption|]. unfold akey. rewrite Ha, Hu. reflexivity.
+  - intros k Hk. apply memN_In in Hk. unfold step, step_gen. cbn [step_core]. rewrite Hb, Hk, (settle_id s St).
+    unfold sink_closed. rewrite (conn_open_eq _ _ _ Hc), Ho, Hu. reflexivity.
+Qed.
+
+(* the unrepaired Drop breaks it: after `clone; drop the clone` the surviving sink reports closed and the entry is gone *)
+Definition old_witness : list act :=
+  [SubscribeCall 0 1; Accept1 0; Accept2 0; CloneSink 0 0 1; DropSink 0 1].
+
+Lemma stays_active_refuted_old :
+  let s := fst (run_old (init [2] 1000 0) old_witness) in
+  let o := snd (run_old (init [2] 1000 0) old_witness) in
+  exists h b cn, nth_error (subs s) h = Some b /\ s_state b = SActive /\ s_sinks b <> [] /\
+    nth_error (conns s) (s_conn b) = Some cn /\ c_open cn = true /\
+    (forall req, ~ In (OUnsubAnswer (s_conn b) req (s_id b) true) o) /\
+    ~ In (s_conn b, s_id b) (table s) /\
+    exists k, In k (s_sinks b) /\ step_old s (IsClosed h k) = (s, [OClosed h k true]).
+Proof.
+  vm_compute. eexists 0, _, _. split; [reflexivity|]. split; [reflexivity|]. split; [discriminate|].
+  split; [reflexivity|]. split; [reflexivity|]. split.
+  - intros req H. repeat (destruct H as [H | H]; [discriminate H|]). exact H.
+  - split; [intros []|]. exists 0%N. split; [left; reflexivity | reflexivity].
+Qed.
